@@ -3,6 +3,7 @@ from engine.driver import poly as P
 from engine.driver.core import Ob, eq, eqs
 from engine.driver.encode import Constraint
 from spec import catalogue as cat
+from spec.treeutil import tier_caps, cap_sets
 
 ID = "C04"
 HARNESS = "C04_jacobians.cpp"
@@ -18,8 +19,8 @@ EXPLANATION = ("System, station and frame Jacobians of the real library (O(n) op
                "accelerations reported after realize(Acceleration) satisfy A_GB = J udot + JDot u, station accelerations = JS udot + JSDot u, "
                "frame accelerations likewise, with udot the reported one.")
 BOUNDS = ("tree catalogue (spec/catalogue.py): every built-in mobilizer forward/reversed, quaternion/Euler, 1-3 bodies quick (5 thorough); "
-          "u, x, udot, FB, FS, FF (and f) free; k free coordinates at a time (1 quick / 2 thorough), other coordinates, stations, mass and frame "
-          "parameters pinned at exact rational base points (2 quick / 6 thorough); fallback to linear inputs only when the encoder's term limit "
+          "u, x, udot, FB, FS, FF (and f) free; k free coordinates at a time (1 quick / 2 thorough; up to 3 quick / 6 thorough choices per base point), other coordinates, stations, mass and frame "
+          "parameters pinned at exact rational base points (2 quick / 4 thorough); fallback to linear inputs only when the encoder's term limit "
           "is exceeded (counted in the evidence); task list = all bodies incl. Ground + one repeated body; stations symbolic-then-pinned")
 NOT_COVERED = ("random task lists beyond the fixed one; trees beyond the catalogue; more than k simultaneously free coordinates; reported "
                "accelerations after realize with a free coordinate in the quick tier (only at pinned coordinates there); Custom/FunctionBased mobilizers; float; rounding")
@@ -30,7 +31,7 @@ def instances(tier, seed):
     for i in cat.tree_instances(tier, seed, "C04"):
         out.append(dict(name=i["name"], args=i["args"] + ["0"]))
         out.append(dict(name=i["name"] + "|realized", args=i["args"] + ["1"], realized=True))
-    return out
+    return tier_caps(out, tier)
 
 
 def is_coord(n):
@@ -41,7 +42,7 @@ def free_sets(inst, tr, tier, rng):
     fs = list(cat.coordinate_free_sets(inst, tr, tier, rng, always=("u", "x_", "FB", "FS", "FF", "f_")))
     if inst.get("realized"):
         return (fs[:2] if tier == "thorough" else []) + [[n for n in fs[0] if not is_coord(n)]]
-    return fs
+    return cap_sets(fs, tier)
 
 
 def obligations(enc, inst, tr):
